@@ -451,18 +451,28 @@ def IssView.amount : IssView → Amount
   | .new _ a .. => a
   | .reissuance _ _ a _ => a
 
+/-- the two range proofs as they enter `issuance_range_proofs_hash` -/
+def IssView.proofs : IssView → Bytes × Bytes
+  | .none => ([], [])
+  | .new _ _ _ ap kp => (ap, kp)
+  | .reissuance _ _ _ ap => (ap, [])
+
 def InView.entropy (v : InView) : Bytes := v.iss.entropy v.prevTxid v.prevVout
 def InView.assetId (v : InView) : Bytes := calculateAsset v.entropy
 def InView.tokenId (v : InView) : Bytes := calculateToken v.entropy v.iss.amount.isConfidential
 
+/-- an optional 32-byte string in a digest: the byte 0, or the byte 1 and the string -/
+def optPiece : Option Bytes → Bytes
+  | some g => 1 :: g
+  | none => [0]
+
 /-- the pieces of an input, from its view -/
 def InView.pieces (v : InView) : InPieces :=
-  { outpoint :=
-      (match v.pegin with | some g => 1 :: g.bytes | none => [0]) ++ v.prevTxid.bytes ++ be32 v.prevVout
+  { outpoint := optPiece (v.pegin.map (·.bytes)) ++ v.prevTxid.bytes ++ be32 v.prevVout
     amt := serializeConf 0x0a v.asset ++ digAmount v.value
     script := Sha256.hash v.scriptPubkey
     seq := be32 v.sequence
-    annex := match v.annex with | some a => 1 :: Sha256.hash a | none => [0]
+    annex := optPiece (v.annex.map Sha256.hash)
     scriptSig := Sha256.hash v.scriptSig
     issAsset :=
       match v.iss with
@@ -473,11 +483,7 @@ def InView.pieces (v : InView) : InPieces :=
       | .none => [0, 0]
       | .new _ _ keys .. => (1 :: v.tokenId) ++ digAmount keys
       | .reissuance .. => (1 :: v.tokenId) ++ digAmount (.explicit 0)
-    issProof :=
-      match v.iss with
-      | .none => Sha256.hash [] ++ Sha256.hash []
-      | .new _ _ _ ap kp => Sha256.hash ap ++ Sha256.hash kp
-      | .reissuance _ _ _ ap => Sha256.hash ap ++ Sha256.hash []
+    issProof := Sha256.hash v.iss.proofs.1 ++ Sha256.hash v.iss.proofs.2
     issBlind :=
       match v.iss with
       | .none => [0]
@@ -548,5 +554,98 @@ def specD (q : DQuery) (e : EnvArgs) : Option (List Bool) :=
   | .input g i => some (optBits ((e.shown[i.toNat]?).map fun p => inDW g (inView p).pieces))
   | .outputHash i =>
     some (optBits ((e.tx.outputs[i.toNat]?).map fun o => hashBits (outView o).pieces.outputHashPre))
+
+/-! ### what `sig_all_hash` commits to -/
+
+/-- everything the digest jets show of an environment (the transaction id apart) -/
+structure EnvView where
+  genesisHash : B32
+  ix : UInt32
+  version : UInt32
+  lockTime : UInt32
+  ins : List InView
+  outs : List OutView
+  leafVersion : UInt8
+  scriptCmr : B32
+  merkleBranch : List B32
+  internalKey : B32
+deriving DecidableEq
+
+def envView (e : EnvArgs) : EnvView :=
+  { genesisHash := e.genesisHash, ix := e.ix, version := e.tx.version, lockTime := e.tx.lockTime
+    ins := e.shown.map inView, outs := e.tx.outputs.map outView
+    leafVersion := e.controlBlock.leafVersion, scriptCmr := e.scriptCmr
+    merkleBranch := e.controlBlock.merkleBranch, internalKey := e.controlBlock.internalKey }
+
+/-- the script signatures are shown (`input_script_sigs_hash`, `input_script_sig_hash`) but are not
+part of `inputs_hash`, `tx_hash` or `sig_all_hash` -/
+def InView.signed (v : InView) : InView := { v with scriptSig := [] }
+def EnvView.signed (v : EnvView) : EnvView := { v with ins := v.ins.map InView.signed }
+
+/-- the byte strings hashed for one input on the way to `sig_all_hash` -/
+def InView.hashed (v : InView) : List Bytes :=
+  [v.scriptPubkey, v.iss.proofs.1, v.iss.proofs.2] ++ v.annex.toList
+
+/-- the byte strings hashed for one output -/
+def OutView.hashed (v : OutView) : List Bytes := [v.scriptPubkey, v.rangeproof, v.surjectionProof]
+
+/-- the pre-images of the combining digests of `txDigestsOf` -/
+def inputsHashPreOf (ins : List InPieces) : Bytes :=
+  let d := txDigestsOf ins [] 0 0 []
+  d.inputOutpointsHash ++ d.inputSequencesHash ++ d.inputAnnexesHash
+def utxosHashPreOf (ins : List InPieces) : Bytes :=
+  let d := txDigestsOf ins [] 0 0 []
+  d.inputAssetAmountsHash ++ d.inputScriptsHash
+def issuancesHashPreOf (ins : List InPieces) : Bytes :=
+  let d := txDigestsOf ins [] 0 0 []
+  d.issuanceAssetAmountsHash ++ d.issuanceTokenAmountsHash ++ d.issuanceRangeProofsHash ++
+    d.issuanceBlindingEntropyHash
+def outputsHashPreOf (outs : List OutPieces) : Bytes :=
+  let d := txDigestsOf [] outs 0 0 []
+  d.outputAssetAmountsHash ++ d.outputNoncesHash ++ d.outputScriptsHash ++ d.outputRangeProofsHash
+def txHashPreOf (ins : List InPieces) (outs : List OutPieces) (version lockTime : UInt32) : Bytes :=
+  let d := txDigestsOf ins outs version lockTime []
+  txHashPre version lockTime d.inputsHash d.outputsHash d.issuancesHash d.outputSurjectionProofsHash
+    d.inputUTXOsHash
+
+/-- the byte strings hashed by `txDigestsOf` on the way to `txHash` (all its pre-images but the one
+of `inputScriptSigsHash`, which does not enter `txHash`) -/
+inductive TxHashed (ins : List InPieces) (outs : List OutPieces) (version lockTime : UInt32) : Bytes → Prop
+  | txHash : TxHashed ins outs version lockTime (txHashPreOf ins outs version lockTime)
+  | inputsHash : TxHashed ins outs version lockTime (inputsHashPreOf ins)
+  | utxosHash : TxHashed ins outs version lockTime (utxosHashPreOf ins)
+  | issuancesHash : TxHashed ins outs version lockTime (issuancesHashPreOf ins)
+  | outputsHash : TxHashed ins outs version lockTime (outputsHashPreOf outs)
+  | outpoints : TxHashed ins outs version lockTime (ins.flatMap (·.outpoint))
+  | sequences : TxHashed ins outs version lockTime (ins.flatMap (·.seq))
+  | annexes : TxHashed ins outs version lockTime (ins.flatMap (·.annex))
+  | amounts : TxHashed ins outs version lockTime (ins.flatMap (·.amt))
+  | scripts : TxHashed ins outs version lockTime (ins.flatMap (·.script))
+  | issAssets : TxHashed ins outs version lockTime (ins.flatMap (·.issAsset))
+  | issTokens : TxHashed ins outs version lockTime (ins.flatMap (·.issToken))
+  | issProofs : TxHashed ins outs version lockTime (ins.flatMap (·.issProof))
+  | issBlinds : TxHashed ins outs version lockTime (ins.flatMap (·.issBlind))
+  | outAmounts : TxHashed ins outs version lockTime (outs.flatMap (·.amt))
+  | outNonces : TxHashed ins outs version lockTime (outs.flatMap (·.nonce))
+  | outScripts : TxHashed ins outs version lockTime (outs.flatMap (·.script))
+  | outRanges : TxHashed ins outs version lockTime (outs.flatMap (·.range))
+  | outSurjs : TxHashed ins outs version lockTime (outs.flatMap (·.surj))
+
+/-- `Hashed e x`: the byte string `x` is hashed when `sig_all_hash` is computed from the supplied
+data `e` — finitely many strings: 4 at the top, 19 in the transaction digests, 3 or 4 per input, 3 per
+output -/
+inductive Hashed (e : EnvArgs) : Bytes → Prop
+  | sigAll : Hashed e (sigAllPre e.genesisHash.bytes (specTx e).txHash (specTap e).tapEnvHash e.ix)
+  | tapEnv : Hashed e ((specTap e).tapLeafHash ++ (specTap e).tappathHash ++ e.controlBlock.internalKey.bytes)
+  | tapLeaf : Hashed e (tapleafTag ++ tapleafTag ++ [e.controlBlock.leafVersion, 32] ++ e.scriptCmr.bytes)
+  | tapPath : Hashed e (e.controlBlock.merkleBranch.map (·.bytes)).flatten
+  | tx (x : Bytes) : TxHashed (e.shown.map fun p => (inView p).pieces) (e.tx.outputs.map fun o => (outView o).pieces)
+      e.tx.version e.tx.lockTime x → Hashed e x
+  | input (p : TxIn × Utxo) (x : Bytes) : p ∈ e.shown → x ∈ (inView p).hashed → Hashed e x
+  | output (o : TxOut) (x : Bytes) : o ∈ e.tx.outputs → x ∈ (outView o).hashed → Hashed e x
+
+/-- SHA-256 has no collision between a string hashed for `e1` and a string hashed for `e2` -/
+def NoCollision (e1 e2 : EnvArgs) : Prop :=
+  ∀ x y, Hashed e1 x → Hashed e2 y → Sha256.hash x = Sha256.hash y → x = y
 
 end Env
